@@ -185,10 +185,7 @@ Lemma pdf_factors_facts l : 0 <= l <= 8 ->
   exists f, zget pdf_correction_factors l = Some f /\ zlength f = pdf_ec_count l /\
             pdf_roots_b (Z.to_nat (pdf_ec_count l)) 3 f = true /\ Forall in929 f.
 Proof.
-  intros Hl. pose proof pdf_tab_factors_roots as H. unfold pdf_factors_roots_b in H.
-  rewrite forallb_forall in H.
-  assert (In l pdf_levels) as Hin by (unfold pdf_levels; simpl; lia).
-  specialize (H l Hin). cbv beta in H.
+  intros Hl. pose proof (pdf_tab_level_roots l Hl) as H. unfold pdf_level_roots_b in H.
   destruct (zget pdf_correction_factors l) as [f|]; [|discriminate].
   exists f. apply andb_prop in H as [H H3]. apply andb_prop in H as [H1 H2].
   split; [reflexivity|]. split; [lia|]. split; [exact H2|].
